@@ -55,8 +55,26 @@ def run_history(world, spec, hist, store_kind, oracles, sigtab=None, opts=None, 
     try:
         for si, (vi, how, entry) in enumerate(hist):
             variant = vs[vi]
-            did = prog.goto(variant, how)
-            real, ref = prog.run(entry, opts)
+            optflip = how == "optflip"
+            did = prog.goto(variant, "inproc" if optflip else how)
+            if optflip:
+                # the user switches the tracking of list / dict variables off for this one evaluation, then back to the default
+                import dds
+                dds.set_option("accept_list", False)
+                dds.set_option("accept_dict", False)
+            try:
+                real, ref = prog.run(entry, opts)
+            finally:
+                if optflip:
+                    dds.reset_option("accept_list")
+                    dds.reset_option("accept_dict")
+            if optflip:
+                # with tracking switched off by the user nothing is demanded of this evaluation's values; the reference still advances
+                if ref.status == "ok":
+                    prog.commit_ref(ref)
+                obs.append(dict(step=si, variant=variant, how="optflip", entry=entry, store=store_kind, real=real.short(), ref=ref.short(), log=list(real.log), sigs={}))
+                seen_cones = set() if False else seen_cones
+                continue
             ctxt = dict(step=si, variant=variant, how=did, entry=entry, store=store_kind)
             o = dict(ctxt, real=real.short(), ref=ref.short(), log=list(real.log), sigs=dict(real.sigs))
             obs.append(o)
